@@ -6,7 +6,7 @@ package hashing
 
 //@ func XorBytes32(a, b) out
 //@   property C19
-//@   ensures forall k :: 0 <= k < 32 ==> out[k] == a[k] ^ b[k]
+//@   ensures forall k :: {out[k]} 0 <= k < 32 ==> out[k] == a[k] ^ b[k]
 //@   loop 1
 //@     invariant 0 <= i <= 32
 //@     invariant forall k :: 0 <= k < i ==> out[k] == a[k] ^ b[k]
